@@ -3,6 +3,7 @@ package main
 import (
 	"fmt"
 	"go/constant"
+	"go/token"
 	"go/types"
 	"sort"
 	"strings"
@@ -93,6 +94,8 @@ type Engine struct {
 	merged   int
 	pureDepth int
 	site     string
+	siteFn   *ssa.Function
+	siteTok  token.Pos
 	clock    T // last symbolic instant (monotone clock)
 	mapOrder int
 	noMerge  bool
@@ -157,7 +160,7 @@ func (e *Engine) record(feas []int64) int64 {
 // choose among option constraints; returns index of the chosen option.
 func (e *Engine) choose(opts []T) int {
 	if e.inPure() {
-		panic(engineError{"fork attempted in guarded (pure) code at " + e.site})
+		panic(engineError{"fork attempted in guarded (pure) code at " + e.where()})
 	}
 	if k, ok := e.replayed(); ok {
 		e.s.assert(opts[k])
@@ -204,7 +207,7 @@ func (e *Engine) enumerate(t T, c T) []int64 {
 		}
 		if r == "unknown" {
 			e.s.in.WriteString("(pop)\n")
-			panic(pathAbort{"solver unknown while concretising " + e.site})
+			panic(pathAbort{"solver unknown while concretising " + e.where()})
 		}
 		v, ok := e.s.termValue(t)
 		if !ok {
@@ -214,7 +217,7 @@ func (e *Engine) enumerate(t T, c T) []int64 {
 		vals = append(vals, int64(v))
 		if len(vals) > e.maxEnum {
 			e.s.in.WriteString("(pop)\n")
-			panic(pathAbort{fmt.Sprintf("concretisation bound (%d values) exceeded at %s", e.maxEnum, e.site)})
+			panic(pathAbort{fmt.Sprintf("concretisation bound (%d values) exceeded at %s", e.maxEnum, e.where())})
 		}
 		e.s.in.WriteString("(assert (not (= " + t.s + " " + bv(v, t.w).s + ")))\n")
 	}
@@ -233,7 +236,7 @@ func (e *Engine) concretizeVal(t T, what string) uint64 {
 		return uint64(v)
 	}
 	if e.inPure() {
-		panic(engineError{"concretisation attempted in guarded (pure) code: " + what + " at " + e.site})
+		panic(engineError{"concretisation attempted in guarded (pure) code: " + what + " at " + e.where()})
 	}
 	var v int64
 	if k, ok := e.replayed(); ok {
@@ -263,7 +266,7 @@ func (e *Engine) concretizeIndex(idx T, signed bool, n int, what string) int {
 		return int(v)
 	}
 	if e.inPure() {
-		panic(engineError{"index concretisation attempted in guarded (pure) code: " + what + " at " + e.site})
+		panic(engineError{"index concretisation attempted in guarded (pure) code: " + what + " at " + e.where()})
 	}
 	inb := inBounds(idx, n) // negative signed values are huge unsigned
 	var v int64
@@ -403,7 +406,7 @@ func (e *Engine) call(fn *ssa.Function, args []Value, bind []Value) Value {
 				}
 			case *ssa.If:
 				c := e.get(f, x.Cond).(T)
-				e.site = fmt.Sprintf("%s @ %s", fn.Name(), e.prog.Fset.Position(x.Cond.Pos()))
+				e.site, e.siteFn, e.siteTok = "", fn, x.Cond.Pos()
 				if !c.isC {
 					if join := postDoms(fn).ipdom[b]; !e.noMerge && join != nil && simpleRegion(fn, b, join) {
 						var a0, a1 []arrival
@@ -684,4 +687,12 @@ func inBounds(idx T, n int) T {
 		return tbool(true)
 	}
 	return binop("<", idx, bv(uint64(n), idx.w), false)
+}
+
+// where describes the current decision site (formatted lazily).
+func (e *Engine) where() string {
+	if e.site != "" || e.siteFn == nil {
+		return e.site
+	}
+	return fmt.Sprintf("%s @ %s", e.siteFn.Name(), e.prog.Fset.Position(e.siteTok))
 }
